@@ -69,3 +69,41 @@ fn twin_port_data_ids_layout_bounded() {
         assert!(v[o + 4] == q[0] && v[o + 5] == q[1] && v[o + 6] == q[2] && v[o + 7] == q[3]);
     }
 }
+
+/// every message without a variable-length part: code byte, little-endian fields, flag byte (loop-free, full domain).
+/// (A decode round trip through `from_slice` was tried and dropped: its error path formats a string, and CBMC did not
+/// finish within 25 minutes; Verus decides `MultiplexMsg::read` in unit U5.)
+#[kani::proof]
+#[kani::unwind(12)]
+fn twin_fixed_messages_layout() {
+    let a: u32 = kani::any();
+    let b: u32 = kani::any();
+    let f: bool = kani::any();
+    let which: u8 = kani::any();
+    kani::assume(which < 10);
+    let pa = le(a);
+    let pb = le(b);
+    let (msg, code, len) = match which {
+        0 => (MultiplexMsg::Reset, 1u8, 1usize),
+        1 => (MultiplexMsg::Ping, 3, 1),
+        2 => (MultiplexMsg::PortOpened { client_port: a, server_port: b }, 5, 9),
+        3 => (MultiplexMsg::Rejected { client_port: a, no_ports: f }, 6, 6),
+        4 => (MultiplexMsg::SendFinish { port: a }, 10, 5),
+        5 => (MultiplexMsg::ReceiveClose { port: a }, 11, 5),
+        6 => (MultiplexMsg::ReceiveFinish { port: a }, 12, 5),
+        7 => (MultiplexMsg::ClientFinish, 13, 1),
+        8 => (MultiplexMsg::ListenerFinish, 14, 1),
+        _ => (MultiplexMsg::Goodbye, 15, 1),
+    };
+    let v = msg.to_vec();
+    assert!(v.len() == len && v[0] == code);
+    if len >= 5 {
+        assert!(v[1] == pa[0] && v[2] == pa[1] && v[3] == pa[2] && v[4] == pa[3]);
+    }
+    if which == 2 {
+        assert!(v[5] == pb[0] && v[6] == pb[1] && v[7] == pb[2] && v[8] == pb[3]);
+    }
+    if which == 3 {
+        assert!(v[5] == f as u8);
+    }
+}
